@@ -113,6 +113,34 @@ class HandlerEval:
         self._visit_cache[key] = paths
         return paths
 
+    def generic_refuses(self, vcls: str) -> bool:
+        """Does the visitor override generic_visit so that every path raises a library exception?
+        (then a kind without a handler is refused instead of silently yielding None)"""
+        cache = self.__dict__.setdefault("_refuse_cache", {})
+        if vcls in cache:
+            return cache[vcls]
+        r = self.repo.lookup_method(vcls, "generic_visit")
+        ok = False
+        if r is not None and r[0].qual not in (VISITOR_BASE, TRANSFORMER):
+            ci, fn = r
+            interp = self.env.interp()
+            kinds = set(self.kf.all_kinds())
+
+            def setup(it):
+                return ci.module, fn, [ObjV(vcls, {}, "self"), NodeV("node", kinds)], {}, ci.qual
+
+            paths = interp.explore(setup)
+            base = "odata_query.exceptions.ODataException"
+
+            def lib(p):
+                v = p.value
+                q = v.args[0].qual if isinstance(v, Sym) and v.op == "exc" and isinstance(v.args[0], RefV) else None
+                return p.outcome == "raise" and q in self.repo.classes and base in self.repo.mro(q)
+
+            ok = bool(paths) and all(lib(p) for p in paths)
+        cache[vcls] = ok
+        return ok
+
     # ---- function dispatch -----------------------------------------------------------------------------------
     def _function_table(self) -> Dict[str, Tuple[int, int]]:
         gm = self.repo.modules.get("odata_query.grammar")
